@@ -72,3 +72,29 @@ impl RecordHeader {
             final(self).magic_byte == old(self).magic_byte,
     { unimplemented!() }
 }
+
+// ---- index regeneration / blob open ----
+pub type IOErrorKind = IoKind;
+pub struct IoErrS { pub kind: IoKind }
+impl IoErrS { pub fn kind(&self) -> (r: IoKind) ensures r == self.kind { self.kind } }
+impl Clone for IoKind { fn clone(&self) -> (r: Self) ensures r == *self { match self { IoKind::NotFound => IoKind::NotFound, IoKind::PermissionDenied => IoKind::PermissionDenied, IoKind::UnexpectedEof => IoKind::UnexpectedEof, IoKind::Other => IoKind::Other, IoKind::Misc => IoKind::Misc } } }
+impl Copy for IoKind {}
+impl VErr {
+    // anyhow::Error::downcast_ref::<std::io::Error>()
+    pub fn as_io(&self) -> (r: Option<IoErrS>)
+        ensures r == (match self.class { ErrClass::Io(k) => Some(IoErrS { kind: k }), _ => None::<IoErrS> })
+    { match self.class { ErrClass::Io(k) => Some(IoErrS { kind: k }), _ => None } }
+}
+// RawRecords (verified in unit raw_scan): the scan of the blob file
+#[verifier::external_body]
+pub struct RawRecordsS { _p: u8 }
+impl RawRecordsS {
+    #[verifier::external_body]
+    pub fn load(self) -> (r: Result<Option<Vec<RecordHeader>>, VErr>)
+        ensures r.is_ok() && r->Ok_0 is Some ==> r->Ok_0->Some_0@.len() > 0 && scan_of(self.src()) == r->Ok_0->Some_0@,
+            r.is_ok() && r->Ok_0 is None ==> scan_of(self.src()) == Seq::<RecordHeader>::empty()
+    { unimplemented!() }
+}
+// header.key().into()
+#[verifier::external_body]
+pub fn key_from_header(h: &RecordHeader) -> (r: KeyT) ensures r@ == h.key@ { unimplemented!() }
